@@ -66,6 +66,11 @@ def separator_cases(rng):
         for kw, root, wrap in (('SEC', 'act', '{K} {N}\n  x\n'), ('PARA', 'act', '{K} {N}\n  x\n'), ('ITEM', 'statement', 'ITEMS\n  {K} {N}\n    x\n')):
             num = a + brk + b
             out.append((wrap.replace('{K}', kw).replace('{N}', num), root, a + ' - ' + b))
+    # an escaped character (a blank, a star, a backslash) as the last character of a num, followed by a real separator and heading
+    for last in (' ', '*', '\\', '-'):
+        for kw, root, wrap in (('SEC', 'act', '{K} {N}\n  x\n'), ('ITEM', 'statement', 'ITEMS\n  {K} {N}\n    x\n')):
+            num = a + '\\' + last + ' - ' + b
+            out.append((wrap.replace('{K}', kw).replace('{N}', num), root, (a + last, b)))
     return out
 
 
@@ -153,8 +158,10 @@ def run(ctx, info):
         else:
             nums = find_all(res['xml'], 'num')
             heads = find_all(res['xml'], 'heading')
-            if len(nums) != 1 or ''.join(k for k in nums[0][2] if isinstance(k, str)) != want or heads:
-                v = f'num {[n[2] for n in nums]!r}, heading {[h[2] for h in heads]!r}; expected the single num {want!r} and no heading'
+            wn, wh = want if isinstance(want, tuple) else (want, None)
+            hs = [''.join(k for k in h[2] if isinstance(k, str)) for h in heads]
+            if len(nums) != 1 or ''.join(k for k in nums[0][2] if isinstance(k, str)) != wn or hs != ([] if wh is None else [wh]):
+                v = f'num {[n[2] for n in nums]!r}, heading {[h[2] for h in heads]!r}; expected the single num {wn!r} and ' + ('no heading' if wh is None else f'the heading {wh!r}')
         if v:
             nbad += 1
             if len(failures) < 30:
@@ -193,7 +200,9 @@ def replay(ctx, rep):
     if c.get('check') == 'sep':
         res = real.strip_etree(real.convert(c['text'], c['root']))
         nums = find_all(res['xml'], 'num') if 'xml' in res else []
-        ok = len(nums) == 1 and ''.join(k for k in nums[0][2] if isinstance(k, str)) == c['want'] and not find_all(res['xml'], 'heading')
+        wn, wh = (c['want'][0], c['want'][1]) if isinstance(c['want'], list) else (c['want'], None)
+        hs = [''.join(k for k in h[2] if isinstance(k, str)) for h in find_all(res['xml'], 'heading')] if 'xml' in res else None
+        ok = len(nums) == 1 and ''.join(k for k in nums[0][2] if isinstance(k, str)) == wn and hs == ([] if wh is None else [wh])
         print('REPRODUCED' if not ok else 'not reproduced')
         return 0 if ok else 1
     if 'w' not in c:
